@@ -76,7 +76,8 @@ def shrink_ops(ctx, exe, ops, fails, budget):
         mid = vlib.ddmin(ops[1:-1], lambda sub: fails([ops[0]] + sub + [ops[-1]]), max_tests=budget)
         return [ops[0]] + mid + [ops[-1]]
     pr = [k for k, o in enumerate(ops) if o.startswith("print ")]
-    if len(pr) == 1 and ops[pr[0]].split()[1] != "-":
+    # (a `want` case is not shrunk: blanking parts of the file would make it fail for another reason)
+    if len(pr) == 1 and ops[pr[0]].split()[1] != "-" and not any(o.startswith("want ") for o in ops):
         k = pr[0]
         data = bytearray.fromhex(ops[k].split()[1])
         hdr = 40
